@@ -3,12 +3,15 @@
 package core
 
 import (
+	"bytes"
 	"fmt"
+	armon "github.com/armon/go-metrics"
 	"os"
 	"path/filepath"
 	"sort"
 	"strings"
 	"sync"
+	"sync/atomic"
 	"testing"
 	"time"
 
@@ -50,13 +53,64 @@ type c16Step struct {
 }
 
 type c16Case struct {
-	Members   int       `json:"members"`
-	Snap      bool      `json:"snap"`
-	Coalesce  int       `json:"coalesce"`  // member coalescing period in ms, 0 = off
-	Quiescent int       `json:"quiescent"` // ms, 1..Coalesce
-	UserCoal  bool      `json:"usercoal"`
-	Eager     bool      `json:"eager"` // reader polls after every step
-	Steps     []c16Step `json:"steps"`
+	Members   int  `json:"members"`
+	Snap      bool `json:"snap"`
+	Coalesce  int  `json:"coalesce"`  // member coalescing period in ms, 0 = off
+	Quiescent int  `json:"quiescent"` // ms, 1..Coalesce
+	UserCoal  bool `json:"usercoal"`
+	Eager     bool `json:"eager"` // reader polls after every step
+	// SmallCh > 0: the application hands Serf an event channel of this capacity
+	// (instead of a roomy one), so a lagging reader makes the pipeline block on
+	// it; nothing may be reordered or dropped while it does
+	SmallCh int       `json:"small_ch,omitempty"`
+	Steps   []c16Step `json:"steps"`
+}
+
+// slowSink is a go-metrics sink that, while on, takes a little while for the
+// member counters Serf bumps between a handler's bookkeeping and its event
+// send (a slow metrics sink is nothing unusual either; the counters are
+// emitted before the handler logs, and the logger serialises its callers).
+type slowSink struct {
+	armon.BlackholeSink
+	on atomic.Bool
+}
+
+func (s *slowSink) IncrCounterWithLabels(key []string, val float32, labels []armon.Label) {
+	if s.on.Load() {
+		for _, k := range key {
+			if k == "member" {
+				time.Sleep(300 * time.Microsecond)
+				return
+			}
+		}
+	}
+}
+
+var (
+	c16Sink     = &slowSink{}
+	c16SinkOnce sync.Once
+)
+
+func installC16Sink() {
+	c16SinkOnce.Do(func() {
+		conf := armon.DefaultConfig("verif")
+		conf.EnableHostname = false
+		conf.EnableRuntimeMetrics = false
+		_, _ = armon.NewGlobal(conf, c16Sink)
+	})
+}
+
+// slowLog is the node's log writer. While on, lines announcing a member event
+// take a little while to write (a slow log sink is nothing unusual).
+type slowLog struct {
+	on atomic.Bool
+}
+
+func (l *slowLog) Write(p []byte) (int, error) {
+	if l.on.Load() && bytes.Contains(p, []byte("EventMember")) {
+		time.Sleep(300 * time.Microsecond)
+	}
+	return len(p), nil
 }
 
 func genC16(t *rapid.T) c16Case {
@@ -66,6 +120,7 @@ func genC16(t *rapid.T) c16Case {
 		UserCoal: rapid.Bool().Draw(t, "usercoal"),
 		Eager:    rapid.IntRange(0, 2).Draw(t, "eager") == 0,
 	}
+	c.SmallCh = rapid.SampledFrom([]int{0, 0, 1, 2, 8}).Draw(t, "smallch")
 	if rapid.IntRange(0, 2).Draw(t, "coal") > 0 {
 		c.Coalesce = rapid.IntRange(1, 5).Draw(t, "period")
 		c.Quiescent = rapid.IntRange(1, c.Coalesce).Draw(t, "quiescent")
@@ -224,6 +279,7 @@ func c16Got(got []int) string {
 }
 
 type c16Node struct {
+	slow      *slowLog
 	label     string
 	n         *node.Node
 	coalesced bool
@@ -293,6 +349,7 @@ func (d *c16Node) absorb(e serf.Event) {
 }
 
 func bodyC16(c c16Case, x *vkit.Ctx) {
+	installC16Sink()
 	if c.Members < 1 {
 		x.Inconclusive("bad case")
 		return
@@ -312,7 +369,12 @@ func bodyC16(c c16Case, x *vkit.Ctx) {
 	}
 	mk := func(label string, piped bool) *c16Node {
 		nw := simnet.New(1)
-		n, err := node.New(nw, node.Opts{Name: self, Quiet: true, Mutate: func(cf *serf.Config) {
+		evbuf := 0
+		if piped {
+			evbuf = c.SmallCh
+		}
+		sl := &slowLog{}
+		n, err := node.New(nw, node.Opts{Name: self, Quiet: true, EventBuf: evbuf, LogTo: sl, Mutate: func(cf *serf.Config) {
 			if !piped {
 				return
 			}
@@ -331,7 +393,7 @@ func bodyC16(c c16Case, x *vkit.Ctx) {
 		if err != nil {
 			return nil
 		}
-		return &c16Node{label: label, n: n, coalesced: piped && c.Coalesce > 0,
+		return &c16Node{label: label, n: n, slow: sl, coalesced: piped && c.Coalesce > 0,
 			last: map[string]c16Snap{}, exp: map[string][]c16Exp{}, got: map[string][]int{}, tainted: map[string]string{}}
 	}
 	piped := mk("piped", true)
@@ -496,6 +558,12 @@ func bodyC16(c c16Case, x *vkit.Ctx) {
 				default:
 					other = func() { d.n.Delegate.NotifyMsg(encLeave(lt, name(i), true)) }
 				}
+				// Widen whatever window there is between a handler's bookkeeping and its
+				// event send: every member handler logs its event in between, and during
+				// the pair the node's log writer is slow. With the send under the member
+				// lock this changes nothing; a send outside of it gets overtaken.
+				d.slow.on.Store(true)
+				c16Sink.on.Store(true)
 				start := make(chan struct{})
 				var wg sync.WaitGroup
 				wg.Add(2)
@@ -503,6 +571,8 @@ func bodyC16(c c16Case, x *vkit.Ctx) {
 				go func() { defer wg.Done(); <-start; other() }()
 				close(start)
 				wg.Wait()
+				d.slow.on.Store(false)
+				c16Sink.on.Store(false)
 				if d.tainted[name(i)] == "" {
 					d.tainted[name(i)] = fmt.Sprintf("concurrent pair at step %d", si)
 				}
@@ -661,6 +731,7 @@ func bodyC16(c c16Case, x *vkit.Ctx) {
 	x.Labelf("member-coalescing=%v", c.Coalesce > 0)
 	x.Labelf("user-coalescing=%v", c.UserCoal)
 	x.Labelf("eager-reader=%v", c.Eager)
+	x.Labelf("app-channel-capacity=%d", c.SmallCh)
 	if pairs > 0 {
 		x.Label("concurrent-pair")
 	}
